@@ -507,11 +507,12 @@ func runFaultCheck(c *explore.Ctx, id string, cfgs []string, histories [][]strin
 		}
 		if hasRe && len(h.ops) <= 4 {
 			// recovery with TWO journals that both hold data needs a flush that did not happen
-			// before Close: the first fault makes every table creation fail three times (the flush
-			// of the frozen buffer keeps failing until Close interrupts it), the second one hits
+			// before Close: the first fault makes one table creation fail (the flush of the frozen
+			// buffer fails and its retry is still waiting for its back-off when Close arrives, so
+			// recovery itself is not disturbed by it), the second one hits
 			// the journals during the reopen - positions the fault-free baseline does not have,
 			// so they are enumerated blindly (a plan that never fires costs one run)
-			first := faultSpec{Kind: int(vstor.KCreate), Type: int(storage.TypeTable), Nth: 1, Count: 3, Mode: int(vstor.ModeFail), Name: "create/table#1 x3 mode0"}
+			first := faultSpec{Kind: int(vstor.KCreate), Type: int(storage.TypeTable), Nth: 1, Count: 1, Mode: int(vstor.ModeFail), Name: "create/table#1 x1 mode0"}
 			for nth := 1; nth <= 3; nth++ {
 				for pos := 0; pos <= 3; pos++ {
 					tasks = append(tasks, faultTask{Cfg: h.cfg, Ops: h.ops, Probe: id == "C09", Faults: []faultSpec{first,
